@@ -1344,6 +1344,19 @@ impl VectorEngine {
             .is_some_and(|v| v.len() == query.len())
     }
 
+    /// The cache slot of the default collection; not available as a collection name.
+    const DEFAULT_CACHE_SLOT: &'static str = "_default";
+
+    /// Rejects the one collection name that would share the default collection's cache slot.
+    fn check_collection_name(name: &str) -> Result<()> {
+        if name == Self::DEFAULT_CACHE_SLOT {
+            return Err(VectorError::ConfigurationError(format!(
+                "collection name '{name}' is reserved"
+            )));
+        }
+        Ok(())
+    }
+
     /// Key prefix for embeddings.
     fn embedding_key(key: &str) -> String {
         format!("emb:{key}")
@@ -1378,6 +1391,7 @@ impl VectorEngine {
     /// Returns an error if a collection with the same name already exists.
     #[instrument(skip(self, config), fields(collection = %name))]
     pub fn create_collection(&self, name: &str, config: VectorCollectionConfig) -> Result<()> {
+        Self::check_collection_name(name)?;
         let mut collections = self.collections.write();
         if collections.contains_key(name) {
             return Err(VectorError::CollectionExists(name.to_string()));
@@ -1463,6 +1477,7 @@ impl VectorEngine {
         vector: Vec<f32>,
         metadata: HashMap<String, TensorValue>,
     ) -> Result<()> {
+        Self::check_collection_name(collection)?;
         if vector.is_empty() {
             return Err(VectorError::EmptyVector);
         }
@@ -1600,6 +1615,7 @@ impl VectorEngine {
         query: &[f32],
         top_k: usize,
     ) -> Result<Vec<SearchResult>> {
+        Self::check_collection_name(collection)?;
         let deadline = Deadline::from_duration(self.config.search_timeout);
 
         if query.is_empty() {
